@@ -46,4 +46,17 @@ CHECKS.update({
             "text": "Scalar coalition operations proved against elementwise set semantics for all pairs of 16-bit coalitions (every n<=16); enumerations exhaustive for n=1..10; predicates proved equivalent to their definitions on symbolic games n<=3 (4 thorough).",
             "note": _NOTE + "; list-valued enumerations are exhaustive checks per n, not symbolic proofs"},
 })
+
+_A6 = "; assumed contracts (A6): file system / JSON identity / RNG supports / exp / networkx adjacency as listed in the evidence"
+CHECKS.update({
+    "C10": {"level": "other", "technique": _T + " with a symbolic RNG (draws = symbols constrained by support, integer draws enumerated); bounded run-time contracts on the real registry",
+            "text": "Mixed: builders and registry partials proved (raises nothing, shape, v(empty)=0, exact superadditivity, monotonicity, draws only from the supplied generator) for every outcome of the random draws at n=3..4; covg/oxs and float-level membership bounded on the real registry n=3..6.",
+            "note": _NOTE + _A6},
+    "C19": {"level": "other", "technique": _T + " over an abstract file system with effect trace (SpecFS) and a symbolic earlier mapping; real-file round trips bounded",
+            "text": "save_json's contract (existing name: no effect; new name: old mapping + entry) proved for an arbitrary earlier mapping; Output.from_json(json(out)) carries symbolic matrices through; byte-level round trip rests on json/numpy and is bounded on real files.",
+            "note": _NOTE + _A6},
+    "C20": {"level": "proof", "technique": _T + " over an abstract file system: all-or-nothing invariant checked after every prefix of the effect trace; crash injection on the real function as replay",
+            "text": "For an arbitrary earlier mapping the results file is, after every prefix of save_json's effect trace, exactly the old or a complete new document (single atomic replace); replayed with the k-th write/close/replace failing on real files.",
+            "note": _NOTE + _A6},
+})
 NOT_APPLICABLE = {}
